@@ -2,6 +2,7 @@ package checks
 
 import (
 	"bytes"
+	"encoding/json"
 	"fmt"
 	"os"
 	"runtime"
@@ -414,6 +415,7 @@ func c19One(c *Ctx, once *crSigOnce, r *rng.R, i int) {
 	}
 	nd := 1 + vr.Intn(3)
 	lostEntries := 0
+	origByte := map[string]byte{}
 	for j := 0; j < nd; j++ {
 		ti := tis[vr.Intn(len(tis))]
 		bi := vr.Intn(len(ti.starts))
@@ -424,6 +426,16 @@ func c19One(c *Ctx, once *crSigOnce, r *rng.R, i int) {
 		off := int(lo) + vr.Intn(int(hi-lo))
 		dm := c19Damage{Table: ti.fd.Num, Offset: off, Block: lo, Old: ti.data[off]}
 		crFlipByte(vr, ti.data, off)
+		// a second flip of the same byte must not restore the original (the block would be intact again while the
+		// oracles count it as lost)
+		ok0 := fmt.Sprintf("%d/%d", ti.fd.Num, off)
+		if o0, seen := origByte[ok0]; !seen {
+			origByte[ok0] = dm.Old
+		} else {
+			for ti.data[off] == o0 {
+				crFlipByte(vr, ti.data, off)
+			}
+		}
 		dm.New = ti.data[off]
 		cs.Damage = append(cs.Damage, dm)
 		for k, v := range ti.vs {
@@ -690,6 +702,9 @@ func c19Recover(c *Ctx, once *crSigOnce, d *c19DB, img *stor.Stor, cs *c19Case, 
 		}
 	}
 	if cs.lean != nil {
+		if f := os.Getenv("VERIF_C19_DUMP"); f != "" {
+			c19DebugDump(f, cs, got)
+		}
 		if c19EmitRebuild(c, cs.lean, d.o, cs.Hist.Opts.Cmp, "ok "+crDigest(got)) {
 			c.Res.Count("lean", part+":images")
 		}
@@ -860,4 +875,29 @@ func c19Recover(c *Ctx, once *crSigOnce, d *c19DB, img *stor.Stor, cs *c19Case, 
 		}
 	}
 	c.Res.Count("outcome", part+":ok")
+}
+
+var c19DumpMu sync.Mutex
+
+// c19DebugDump appends one JSON line per image that goes to the model (VERIF_C19_DUMP=<file>, for investigation).
+func c19DebugDump(file string, cs *c19Case, got kvmap) {
+	c19DumpMu.Lock()
+	defer c19DumpMu.Unlock()
+	f, err := os.OpenFile(file, os.O_APPEND|os.O_CREATE|os.O_WRONLY, 0o644)
+	if err != nil {
+		return
+	}
+	defer f.Close()
+	keys := map[string]int{}
+	for k, v := range got {
+		keys[fmt.Sprintf("%x", k)] = len(v)
+	}
+	var jn []int64
+	for _, fd := range cs.lean.pristine.Files() {
+		if fd.Type == storage.TypeJournal {
+			jn = append(jn, fd.Num)
+		}
+	}
+	b, _ := json.Marshal(map[string]interface{}{"case": cs, "journals": jn, "got": keys, "digest": crDigest(got)})
+	f.Write(append(b, '\n'))
 }
